@@ -3527,3 +3527,34 @@ Proof.
   split; [apply ex_node_WF|]. split; [vm_compute; repeat split|]. split; [vm_compute; repeat split|].
   vm_compute. right. right. left. reflexivity.
 Qed.
+
+(* a first, small part of termination: from RESTARTING / SHUTTING_DOWN / FINAL the loop performs at most one
+   transition (to FINAL), whatever the oracles: fuel 1 is enough, and nothing is raised *)
+Lemma set_state_final_no_fuel : forall fuel n d orcs now acc, fsm_state n = FINAL ->
+  set_state fuel n d orcs now acc = Ok (n, acc).
+Proof.
+  intros fuel n d orcs now acc Hf. destruct fuel; simpl; (destruct d as [ns|]; [|reflexivity]);
+    rewrite Hf; (destruct (sstate_eqb ns FINAL); [reflexivity|]); rewrite final_terminal_table; reflexivity.
+Qed.
+
+Theorem set_state_terminates_ending_partial : forall fuel n d orcs now acc, WF n ->
+  (fsm_state n = RESTARTING \/ fsm_state n = SHUTTING_DOWN \/ fsm_state n = FINAL) ->
+  exists r, set_state (S fuel) n d orcs now acc = Ok r.
+Proof.
+  intros fuel n d orcs now acc W Hf.
+  destruct Hf as [Hf|[Hf|Hf]]; [| |rewrite set_state_final_no_fuel; [eexists; reflexivity|exact Hf]].
+  all: simpl; destruct d as [ns|]; [|eexists; reflexivity].
+  all: destruct (sstate_eqb ns (fsm_state n)) eqn:Eeq; [eexists; reflexivity|].
+  all: destruct (fsm_transition_ok (fsm_state n) ns) eqn:Eok; simpl; [|eexists; reflexivity].
+  all: assert (Ens : ns = FINAL) by (eapply ending_only_final_table; [|exact Eok]; tauto); subst ns.
+  all: assert (X := enter_Msame n FINAL now); assert (W1 := set_fsm_WF n FINAL W).
+  all: destruct (set_fsm n FINAL) as [n1 o1]; simpl in X, W1.
+  all: assert (W2 := enter_state_WF n1 FINAL now W1).
+  all: destruct (enter_state n1 FINAL now) as [n2 o2] eqn:Een; simpl in X, W2; destruct X as [_ [_ S2]].
+  all: simpl in Een; inversion Een; subst n2 o2.
+  all: assert (S2' : fsm_state n1 = FINAL) by (apply S2; rewrite Hf; discriminate).
+  all: destruct (next_orcs orcs) as [orc rest]; assert (X3 := fsm_next_okW n1 orc now W2).
+  all: destruct (fsm_next n1 orc now) as [[[n3 o3] d3]|k] eqn:E3; simpl in X3; [|contradiction].
+  all: rewrite set_state_final_no_fuel; [eexists; reflexivity|].
+  all: rewrite <- S2'; apply (fsm_next_FR _ _ _ _ _ _ E3).
+Qed.
